@@ -272,6 +272,13 @@ fn setup_program(prog: &Value, path: &str) -> (Arc<Shared>, Vec<Vec<Value>>) {
 
 /// One controlled schedule; returns (history events, choices per decision point, stalled).
 fn run_schedule(prog: &Value, schedule: &[usize], path: &str, pinout: Option<&str>) -> (Vec<Value>, Vec<Vec<usize>>, bool, Vec<&'static str>) {
+    let (ev, choices, stalled, parked_at, _) = run_schedule_arrivals(prog, schedule, path, pinout);
+    (ev, choices, stalled, parked_at)
+}
+
+/// As `run_schedule`; additionally the list of (thread taken, point it arrived at) per decision
+/// ("done" when the thread finished, "<stall>" when it blocked) - the conformance data of StoreConc.tla.
+fn run_schedule_arrivals(prog: &Value, schedule: &[usize], path: &str, pinout: Option<&str>) -> (Vec<Value>, Vec<Vec<usize>>, bool, Vec<&'static str>, Vec<(usize, &'static str)>) {
     feoxdb::verif::set_now(NOW);
     let (sh, threads) = setup_program(prog, path);
     let nthreads = threads.len();
@@ -296,6 +303,7 @@ fn run_schedule(prog: &Value, schedule: &[usize], path: &str, pinout: Option<&st
     let mut script_pos = 0usize;
     let fine_points: Vec<String> = prog["points"].as_array().map(|a| a.iter().filter_map(|x| x.as_str().map(String::from)).collect()).unwrap_or_default();
     let mut choices = Vec::new();
+    let mut arrivals: Vec<(usize, &'static str)> = Vec::new();
     let mut parked_at: Vec<&'static str> = Vec::new();   // where the previously run thread stands at each decision
     let mut pos = 0;
     let mut stalled = false;
@@ -344,6 +352,7 @@ fn run_schedule(prog: &Value, schedule: &[usize], path: &str, pinout: Option<&st
             if !((name.starts_with("tree_") || name == "clock_load") && !fine_points.iter().any(|x| x == name)) { break; }
             arrived = feoxdb::verif::sched::step(ids[pick], step_to);
         }
+        arrivals.push((pick, arrived.unwrap_or("done")));
         match arrived {
             None => { alive[pick] = false; for b in blocked.iter_mut() { *b = false; } }
             // the thread is blocked on a lock or channel that a parked thread owns: run the others
@@ -367,7 +376,7 @@ fn run_schedule(prog: &Value, schedule: &[usize], path: &str, pinout: Option<&st
         }
         obs::uninstall();
         let _ = obs::take();
-        return (vec![reset, json!({"e": "stall", "schedule": schedule})], choices, true, parked_at);
+        return (vec![reset, json!({"e": "stall", "schedule": schedule})], choices, true, parked_at, arrivals);
     }
     for h in handles {
         let _ = h.join();
@@ -386,13 +395,14 @@ fn run_schedule(prog: &Value, schedule: &[usize], path: &str, pinout: Option<&st
         ev.push(settled_event(&sh.store, prog["cfg"]["blocks"].as_u64().unwrap_or(64)));
         if let Ok(s) = Arc::try_unwrap(sh) { std::mem::forget(s.store); }
     }
-    (ev, choices, false, parked_at)
+    (ev, choices, false, parked_at, arrivals)
 }
 
 pub fn main(args: &[String]) -> i32 {
     let o = Opts::parse(args);
     match o.get("mode").unwrap_or("dfs") {
         "dfs" => dfs_main(&o),
+        "replay" => replay_main(&o),
         "storm" => storm_main(&o),
         "limitstorm" => limitstorm_main(&o),
         "scanstorm" => scanstorm_main(&o),
@@ -452,6 +462,38 @@ fn dfs_main(o: &Opts) -> i32 {
     out.flush().unwrap();
     let _ = std::fs::remove_file(&path);
     println!("{}", json!({"programs": progs.len(), "schedules": total, "stalls": stalls, "events": events, "truncated_programs": truncated}));
+    0
+}
+
+/// Replay of behaviours generated by TLC from StoreConc.tla (spec -> impl): every line of the program file
+/// carries a complete `schedule` (thread per step); the history goes to --out (LinTrace vocabulary), the
+/// points at which the real threads arrived go to --steps, one line per program.
+fn replay_main(o: &Opts) -> i32 {
+    let progs: Vec<Value> = std::fs::read_to_string(o.req("prog")).expect("prog").lines()
+        .filter(|l| !l.trim().is_empty()).map(|l| serde_json::from_str(l).expect("prog json")).collect();
+    let mut out = std::io::BufWriter::new(std::fs::File::create(o.req("out")).expect("out"));
+    let mut steps = std::io::BufWriter::new(std::fs::File::create(o.req("steps")).expect("steps"));
+    let path = format!("{}/conc_{}.feox", o.get("dir").unwrap_or("/dev/shm"), std::process::id());
+    crate::util::watchdog::start(o.num("watchdog", 60));
+    let mut stalls = 0usize;
+    let mut events = 0usize;
+    for (pi, prog) in progs.iter().enumerate() {
+        let schedule: Vec<usize> = prog["schedule"].as_array().map(|a| a.iter().filter_map(|x| x.as_u64().map(|v| v as usize)).collect()).unwrap_or_default();
+        crate::util::watchdog::beat(&format!("replay program {pi}"));
+        let (ev, _choices, stalled, _parked, arrivals) = run_schedule_arrivals(prog, &schedule, &path, None);
+        if stalled { stalls += 1; }
+        let first = events + 1;
+        for e in &ev { writeln!(out, "{}", e).unwrap(); events += 1; }
+        let results: Vec<&Value> = ev.iter().filter(|e| e["e"] == "res").collect();
+        writeln!(steps, "{}", json!({"i": pi, "stalled": stalled, "first_event": first,
+            "arrivals": arrivals.iter().map(|(t, a)| json!([t, a])).collect::<Vec<_>>(),
+            "res": results, "pubs": ev.iter().filter(|e| e["e"] == "pub").collect::<Vec<_>>(),
+            "final": ev.iter().find(|e| e["e"] == "final")})).unwrap();
+    }
+    out.flush().unwrap();
+    steps.flush().unwrap();
+    let _ = std::fs::remove_file(&path);
+    println!("{}", json!({"programs": progs.len(), "schedules": progs.len(), "stalls": stalls, "events": events}));
     0
 }
 
